@@ -361,7 +361,7 @@ pub fn gen_case(s: &mut Src) -> Case {
 
 fn run(ctx: &Ctx, env: &Env) -> Stats {
     let mut jobs: Vec<Job> = vec![];
-    let n_rand = ctx.t(10_000u64, 300_000);
+    let n_rand = ctx.t(10_000u64, 1_000_000);
     for j in 0..16 {
         jobs.push(Box::new(move |ctx: &Ctx| {
             let mut part = Part::new(ctx, format!("random/{}", j), "proptest byte strings decoded into (multiset, split, combine, observation interface)", false);
